@@ -309,7 +309,7 @@ func playHand(o *Out, r *Rng, cfgLine string, probeP, viewP, hopP, malP float64)
 			h.views()
 		}
 		if r.Chance(0.04) {
-			h.noise(r.Intn(4))
+			h.noise(r.Intn(5))
 		}
 		if r.Chance(hopP) {
 			switch {
